@@ -41,7 +41,7 @@ func loopUnder(b []byte, sched iosim.Schedule, nameArgs bool, cov *Cov, keep boo
 	}
 	if cov != nil {
 		cov.Steps += clk.Now()
-		cov.Faults.Add(sr.Stats)
+		cov.NoteReader(sr)
 		cov.Faults.Writes += w.Writes
 	}
 	return lr, tuples, sr
